@@ -462,22 +462,23 @@ func c04Named(n *vregex.Node, optional bool, f func(n *vregex.Node, optional boo
 }
 
 // c04FixTree makes a generated tree usable inside a filter value: a raw '@'
-// would start a variable reference in the value grammar, so it is always
-// written as \x40; group names become unique within the case.
+// would start a variable reference in the value grammar and the query lexer
+// does not accept a quoted value that starts with a doubled quote, so both
+// bytes are always written as \xHH; group names become unique within the case.
 func c04FixTree(n *vregex.Node, ctr *int) {
 	switch n.Kind {
 	case vregex.KLit:
-		if n.Byte == '@' {
+		if n.Byte == '@' || n.Byte == '"' {
 			n.Esc = 2
 		}
 	case vregex.KClass:
 		for i := range n.Items {
 			it := &n.Items[i]
 			if it.Named == "" {
-				if it.Lo == '@' {
+				if it.Lo == '@' || it.Lo == '"' {
 					it.LoEsc = 2
 				}
-				if it.Hi == '@' {
+				if it.Hi == '@' || it.Hi == '"' {
 					it.HiEsc = 2
 				}
 			}
@@ -568,6 +569,20 @@ func c04Filler(rt *rapid.T, label string) []byte {
 	}
 	return out
 }
+
+// c04RefHighOK: the reference evaluator substitutes captured bytes >= 0x80
+// correctly (as the bytes, not as UTF-8 text). While it does not, captures are
+// kept to ASCII so that no wrong expectation is produced.
+var c04RefHighOK = func() bool {
+	for _, v := range []string{"\xe9", "A\xe9\x80\x80", "\xc2\x80"} {
+		l := vq.MakeLayout([]vq.Run{{Dir: 0, Data: []byte("x" + v + "y")}})
+		_, ok, err := vq.SeqStep("xy", []vq.VarRef{{Pos: 1, Name: "v"}}, 0, vq.Position{Vars: map[string]string{"v": v}}, l)
+		if err != nil || !ok {
+			return false
+		}
+	}
+	return true
+}()
 
 type c04Cfg struct {
 	name     string
@@ -721,7 +736,7 @@ func (g *c04Gen) elem(mk func() []c04Piece) *c04Elem {
 func (g *c04Gen) chain(idx int) [2]*c04Elem {
 	v := fmt.Sprintf("v%d", idx)
 	// while these are open the capture cannot match a newline / a byte >= 0x80
-	tameNL, tameHigh := g.cfg.open[c04FindPrecondNL], g.cfg.open[c04FindVarHighByte]
+	tameNL, tameHigh := g.cfg.open[c04FindPrecondNL], g.cfg.open[c04FindVarHighByte] || !c04RefHighOK
 	var metaAtoms []c04Atom
 	for _, a := range c04MetaAtoms {
 		if !(a.nl && tameNL) && !(a.high && tameHigh) {
@@ -1253,6 +1268,7 @@ func c04Prop(rt *rapid.T, c *vlib.Case, cfg c04Cfg) {
 		c.Label(l)
 	}
 	c.LabelIf(multiChunk, "payload>=2chunks")
+	c.LabelIf(!c04RefHighOK, "reference-cannot-substitute-high-bytes")
 	c.Labelf("streams:%d", len(ref))
 	if evaluated == 0 {
 		c.Discard("no-query-evaluated")
